@@ -5,5 +5,6 @@ CONSTANTS
   GraphIdempotent = TRUE
   CacheTransparent = FALSE
   SerialsMemoised = TRUE
+  ScopeFixed = TRUE
 INVARIANTS C19_FlatStable
 CHECK_DEADLOCK FALSE
